@@ -338,6 +338,9 @@ def run(ctx):
     s_sub = fsite(ctx, "formulas._isotope_substitution", "formulas.Formula.replace")
     H1, D, H = A["H1"], A["DT"], A["H"]
     p = sp.Symbol("p", positive=True)
+    # p is a proper fraction: 1 - p > 0 is a fact given to the interpreter, so a 'portion == 1' special case is not taken for it
+    saved_pos = list(getattr(I, "positive", None) or [])
+    I.positive = saved_pos + [1 - p]
     f = I.call(fm, [{H1: q[0], O: q[1], D: q[2]}], {"density": d})
     mass0 = q[0] * mass_sym("H1") + q[1] * mO + q[2] * mass_sym("D")
     for label, portion, want_atoms in (
@@ -369,7 +372,20 @@ def run(ctx):
     ctx.check(rr is None and I.getattr(I.call(I.getattr(fn, "replace"), [H1, D], {}), "density") is None, "R3",
               "replace on a formula of unknown density leaves it unknown",
               f"replace raised {rr}" if rr else "density became known", s_sub)
-    ctx.floor("R3", 13)
+    # a structural formula with the source atom on several sites (NH[1]2 CH2 COOH[1]): every site is substituted
+    fs = I.call(fm, [[(q[0], H1), (sp.Integer(1), [(q[1], O), (q[2], H1)]), (sp.Integer(2), D)]], {"density": d})
+    mass_s = (q[0] + q[2]) * mass_sym("H1") + q[1] * mO + 2 * mass_sym("D")
+    for label, portion in (("full", sp.Integer(1)), ("partial", p)):
+        r = I.call(I.getattr(fs, "replace"), [H1, D], {"portion": portion})
+        want_atoms = {O: q[1], D: 2 + (q[0] + q[2]) * portion}
+        if portion is p:
+            want_atoms[H1] = (q[0] + q[2]) * (1 - p)
+        dict_eq(ctx, "R3", f"replace ({label}) in a formula with the source on several sites: every site is substituted",
+                _generic_arm(I.getattr(r, "atoms"), p), want_atoms, s_sub)
+        eq(ctx, "R3", f"replace ({label}) in a formula with the source on several sites: density scales with the mass",
+           _generic_arm(I.getattr(r, "density"), p), d * (mass_s + (q[0] + q[2]) * portion * (mass_sym("D") - mass_sym("H1"))) / mass_s, s_sub)
+    I.positive = saved_pos
+    ctx.floor("R3", 17)
 
     # ---- R4 volume -----------------------------------------------------------
     s_vol = fsite(ctx, "formulas.Formula.volume")
